@@ -374,6 +374,49 @@ func (m *c08Model) rateTrips(fail, slow, total int) (bool, string) {
 	return false, ""
 }
 
+// boundary names a rate evaluation that sits right next to its threshold (it only names the
+// event for coverage / required observations / signatures, the verdict is rateTrips' alone):
+// the exact rate cnt*100/total and the threshold T are less than one percentage point apart.
+//   just-below: T-1 <= rate < T and nothing tripped  ("only at or above": must NOT open)
+//               (frac=0: the rate is exactly T-1)
+//   just-above: T < rate < T+1 and this rate tripped ("at or above": must open)
+//   exactly-at: rate == T and this rate tripped
+// frac is the fractional part of the exact rate: 0, below one half, or at least one half - an
+// implementation that truncates, rounds to nearest or rounds up a computed percentage differs
+// from "at or above" on different ones of these classes.
+func (m *c08Model) boundary(fail, slow, total int, tripped bool, why string) string {
+	if total == 0 {
+		return ""
+	}
+	out := ""
+	for _, k := range []struct {
+		name string
+		cnt  int
+		th   int
+	}{{"failure", fail, int(m.pol.FailTh)}, {"slow", slow, int(m.pol.SlowTh)}} {
+		if k.cnt == 0 || k.cnt == total {
+			continue // 0% and 100% are no rounding boundaries; keeps the common events plain
+		}
+		q, rem := k.cnt*100/total, k.cnt*100%total
+		frac := "frac=0"
+		if rem != 0 {
+			frac = "frac<.5"
+			if rem*2 >= total {
+				frac = "frac>=.5"
+			}
+		}
+		switch {
+		case !tripped && q+1 == k.th:
+			out += "+" + k.name + "-rate-just-below-threshold(" + frac + ")"
+		case tripped && why == k.name && rem != 0 && q == k.th:
+			out += "+" + k.name + "-rate-just-above-threshold(" + frac + ")"
+		case tripped && why == k.name && rem == 0 && q == k.th:
+			out += "+" + k.name + "-rate-exactly-at-threshold"
+		}
+	}
+	return out
+}
+
 // acquire: a caller asks for admission at virtual time t.
 func (m *c08Model) acquire(t int64, call int) []c08Alt {
 	p := m.pol
@@ -470,10 +513,13 @@ func (m *c08Model) record(t int64, call int, res uint8) []c08Alt {
 					slow++
 				}
 			}
-			if trip, why := n.rateTrips(fail, slow, len(n.win)); trip {
+			trip, why := n.rateTrips(fail, slow, len(n.win))
+			bnd := n.boundary(fail, slow, len(n.win), trip, why)
+			if trip {
 				n.toOpen(t, t)
 				ev = "closed-to-open-" + why
 			}
+			ev += bnd
 		} else {
 			ev += "+below-min-calls"
 		}
@@ -503,13 +549,16 @@ func (m *c08Model) record(t int64, call int, res uint8) []c08Alt {
 		}
 		if len(n.trials) >= int(p.Permitted) { // "the trials' recorded results close the breaker or reopen it"
 			ev := ""
-			if trip, why := n.rateTrips(fail, slow, len(n.trials)); trip {
+			trip, why := n.rateTrips(fail, slow, len(n.trials))
+			bnd := n.boundary(fail, slow, len(n.trials), trip, why)
+			if trip {
 				n.toOpen(t, t)
 				ev = "half-to-open-" + why
 			} else {
 				n.toClosed()
 				ev = "half-to-closed"
 			}
+			ev += bnd
 			return append([]c08Alt{{false, n, ev}}, alts...)
 		}
 		alts = append([]c08Alt{{false, n, "trial-recorded"}}, alts...)
